@@ -98,7 +98,7 @@ def run(ctx):
                        'plugin initialisers are deterministic (calling one twice yields the same Name/Requirements)']
     ctx.rule = ('enab = 1..4 inert detectors with RequiredExtractors() lists over 6 real filesystem + 3 standalone extractor names (overlapping, repeated, enabled explicitly, unknown): enabled lists after the real '
                 'EnableRequiredExtractors, and a real Scan over an in-memory tree with one file per extractor: Extract calls (stats.Collector), package multiplicities, status entries; '
-                'names also = overlapping lists (group+member, member+group, same name twice, group+group, all+anything) judged against the union of the single resolutions; prer = scan-root shapes {none, one real directory, one virtual FS (Path ""), real+virtual; and none / virtual / real+virtual with PathsToExtract set (registry and defaults only): several roots + specific files must be refused AFTER validation} x 60 capability tuples x (filtered registry, filtered defaults, unfiltered defaults, EVERY plugin alone): '
+                'names also = overlapping lists (group+member, member+group, same name twice, group+group, all+anything) judged against the union of the single resolutions; prer = scan-root shapes {none, one real directory, one virtual FS (Path ""), real+virtual; and none / virtual / real+virtual / container with PathsToExtract set, and a one-layer container image through ScanContainer (registry and defaults only): several roots + specific files must be refused AFTER validation} x 60 capability tuples x (filtered registry, filtered defaults, unfiltered defaults, EVERY plugin alone): '
                 'real EnableRequiredExtractors + ValidatePluginRequirements on the real plugins and a real scalibr.New().Scan with inert stand-ins carrying each plugin\'s name/requirements: never a requirement-validation failure for a filtered set; '
                 'seq = operation sequences: the registry\'s all/default lists and FromCapabilities results filtered with every ordered pair of 10 capability tuples (and 3-4 in a row), hand-made lists '
                 'with 2-4 random tuples: every result, every EARLIER result re-read after the later calls and the input list afterwards must be what the pure model says; exhaustive in both tiers: val = all 60x60 (requirement, capability) pairs; fromcaps = 3 registries x 60 tuples; names = every registered key; name = every key of every '
@@ -163,7 +163,7 @@ def run(ctx):
             return 'scan configured from the capability-FILTERED selection fs=%s standalone=%s detectors=%s under %s: %s' % (
                 unhexl(t[3]), unhexl(t[4]), unhexl(t[5]), caps_str(t[2]), what)
         if op == 'prer' and t[2] == '1':
-            shape = {'n': 'no scan root', 'r': 'one real directory', 'v': 'one virtual file system (ScanRoot.Path == "")', 'rv': 'a real directory and a virtual file system'}.get(t[1].rstrip('p') or t[1], t[1]) + \
+            shape = {'n': 'no scan root', 'r': 'one real directory', 'v': 'one virtual file system (ScanRoot.Path == "")', 'rv': 'a real directory and a virtual file system', 'c': 'a one-layer container image through ScanContainer', 'e': 'a container image without layers through ScanContainer'}.get(t[1].rstrip('p') or t[1], t[1]) + \
                     (' + PathsToExtract=[a.txt]' if t[1].endswith('p') and t[1] != 'p' else '')
             sel = 'fs=%s standalone=%s detectors=%s' % (unhexl(t[4]), unhexl(t[5]), unhexl(t[6]))
             res = fi.get('res', '')
@@ -175,11 +175,11 @@ def run(ctx):
             if fi.get('scan') in ('prefail', 'other'):
                 return 'a real Scan configured from the capability-FILTERED selection %s under %s with scan roots = %s FAILED %s' % (
                     sel, caps_str(t[3]), shape, 'requirement validation' if fi.get('scan') == 'prefail' else 'for another reason')
-        if op == 'prer' and fm.get('res') == 'ok' and fi.get('res') == 'ok' and fi.get('scan') != fm.get('scan'):
-            # SPEC (order of Scan's precondition chain): validation passed -> no root: "no scan root specified"; PathsToExtract with
+        if op == 'prer' and fm.get('res', '?') == fi.get('res') and fm.get('res') != 'badname' and fi.get('scan') != fm.get('scan'):
+            # SPEC (order of Scan's precondition chain): enabling / requirement validation fail first (prefail); validation passed -> no root: "no scan root specified"; PathsToExtract with
             # more than one root: "can't extract specific files with several scan roots"; otherwise the scan runs and succeeds
             names = {'ok': 'succeeds', 'noroot': 'stops with "no scan root specified"', 'severalroots': 'stops with "can\'t extract specific files with several scan roots"',
-                     'prefail': 'fails requirement validation', 'other': 'fails for another reason'}
+                     'prefail': 'fails requirement validation', 'other': 'fails for another reason', 'nolayers': 'is refused with "no chain layers found"'}
             return 'a real Scan of the selection fs=%s standalone=%s detectors=%s under %s with scan-root shape %s %s; the specification says it %s' % (
                 unhexl(t[4]), unhexl(t[5]), unhexl(t[6]), caps_str(t[3]), t[1], names.get(fi.get('scan'), fi.get('scan')), names.get(fm.get('scan'), fm.get('scan')))
         if op == 'names' and 'sres' in fm and fi.get('res') != fm['sres']:
